@@ -233,6 +233,26 @@ func c16Get(tier, which string) *c16Cfg {
 		v = c16Build("ab", []rune("ab"), []rune("abc"), 14, 3, 4)
 	case which == "ab3": // triple reads, small sets, all orders
 		v = c16Build("ab3", []rune("ab"), []rune("abc"), 3, 2, 3)
+	case which == "deep":
+		// longer symbols: a node deeper than a later-registered shorter symbol must unwind to it
+		v = c16Build("deep", []rune("ab"), []rune("abc"), 3, 3, 4)
+		v.cands = []string{"a", "aa", "aaa", "aaaa", "aaab", "aab", "ab", "aaaaa"}
+		v.cases = nil
+		n := len(v.cands)
+		for m := 1; m < 1<<n; m++ {
+			if bits.OnesCount(uint(m)) > 3 {
+				continue
+			}
+			idx := []int{}
+			for i := 0; i < n; i++ {
+				if m&(1<<i) != 0 {
+					idx = append(idx, i)
+				}
+			}
+			for _, p := range permutations(idx) {
+				v.cases = append(v.cases, c16Case{m, p})
+			}
+		}
 	case tier == "quick":
 		v = c16Build("aя", []rune("aя"), []rune("aяc"), 2, 2, 3)
 	default:
@@ -247,7 +267,7 @@ func init() {
 		ID:    "C16",
 		Level: "model_checking",
 		Rule: "symbol sets = subsets of the 14 strings of length 1..3 over {a,b} (own token type each), every registration order for sets of <=3 symbols (two orders otherwise); on each real tree every sequence of reads over all inputs of bounded length over {a,b,c}, " +
-			"and for every further candidate: read all inputs, Add it, read all inputs again; each read compared with 'longest registered prefix, else one character' for text, type and consumed length; same over {a,я} for the >U+00FF child lookup; non-trivial = tree with >=2 symbols",
+			"and for every further candidate: read all inputs, Add it, read all inputs again; each read compared with 'longest registered prefix, else one character' for text, type and consumed length; same over {a,я} for the >U+00FF child lookup; plus sets of <=3 symbols of length up to 5 (a, aa, aaa, aaaa, aaab, aab, ab, aaaaa) in every order with inputs up to length 4, where a later-registered shorter symbol must be honoured by deeper nodes; non-trivial = tree with >=2 symbols",
 		Assume: []string{"trees are rebuilt from scratch for every read sequence (real objects cannot be cloned)"},
 		Spaces: func(tier string) []fw.Space {
 			sp := []fw.Space{}
@@ -262,6 +282,7 @@ func init() {
 				add("ab3", 3, "sets-ab-read-triples")
 			}
 			add("aя", 2, "sets-nonlatin-read-pairs")
+			add("deep", 1, "deep-symbols-monotonicity")
 			return sp
 		},
 		Bounds: func(tier string) string {
